@@ -33,6 +33,9 @@ Proof.
 Qed.
 
 (* ---------------------------------------------------------------- split_whitespace *)
+Lemma frev_rev (l : str) : frev l = rev l.
+Proof. unfold frev. symmetry. apply rev_alt. Qed.
+
 Definition no_ws (w : str) : Prop := forallb (fun c => negb (is_whitespace c)) w = true.
 
 Lemma split_ws_word : forall a acc, no_ws a -> (acc <> [] \/ a <> []) ->
@@ -40,7 +43,7 @@ Lemma split_ws_word : forall a acc, no_ws a -> (acc <> [] \/ a <> []) ->
 Proof.
   induction a as [|c a IH]; intros acc Hn Hne.
   - cbn [split_ws]. destruct acc as [|x acc]; [destruct Hne; congruence|].
-    rewrite app_nil_r. reflexivity.
+    rewrite app_nil_r, frev_rev. reflexivity.
   - unfold no_ws in Hn. cbn [forallb] in Hn. apply andb_true_iff in Hn. destruct Hn as [Hc Hn].
     apply negb_true_iff in Hc. cbn [split_ws]. rewrite Hc.
     rewrite IH; [|exact Hn|left; discriminate].
@@ -60,8 +63,8 @@ Qed.
 Lemma split_ws_pieces : forall s acc, no_ws acc ->
   Forall (fun w => w <> [] /\ no_ws w) (split_ws acc s).
 Proof.
-  assert (Hrev : forall acc x, no_ws (x :: acc) -> rev (x :: acc) <> [] /\ no_ws (rev (x :: acc))).
-  { intros acc x H. split.
+  assert (Hrev : forall acc x, no_ws (x :: acc) -> frev (x :: acc) <> [] /\ no_ws (frev (x :: acc))).
+  { intros acc x H. rewrite frev_rev. split.
     - cbn [rev]. intro E. apply app_eq_nil in E. destruct E as [_ E]. discriminate.
     - unfold no_ws in *. rewrite forallb_forall in *. intros c Hc. apply H. apply in_rev. exact Hc. }
   induction s as [|c s IH]; intros acc Ha.
@@ -102,24 +105,65 @@ Proof.
   - exact IH.
 Qed.
 
+(* ---------------------------------------------------------------- variants *)
+(* the four fixes that are in /repo are applied; the two proposed ones may or may not be *)
+Definition good (v : variant) : Prop :=
+  v_dotall v = true /\ v_lossy_ws v = true /\ v_lp_name v = true /\ v_skip_header v = true.
+Ltac norm v G :=
+  destruct v as [? ? ? ? vl vq]; destruct G as (Gd & Gw & Gn & Gs);
+  cbn [v_dotall v_lossy_ws v_lp_name v_skip_header] in Gd, Gw, Gn, Gs; subst.
+Lemma good_fixed : good fixed.
+Proof. repeat split. Qed.
+Lemma good_committed : good committed.
+Proof. repeat split. Qed.
+
+(* the exact-case instances of the specification vocabulary: what the code computes *)
+Notation xfiles := (files_paragraphs_w pget).
+Notation xlicences := (licence_paragraphs_w pget).
+Notation xpatterns := (patterns_w pget).
+Notation xmatches := (para_matches_w pget).
+Notation xlicence := (para_licence_w pget).
+Notation xnamed := (named_w pget).
+Notation xvalid := (doc_valid_w pget).
+Notation xanswer := (licence_answer_w pget).
+Notation xwf := (wf_doc_w pget).
+
 (* ---------------------------------------------------------------- licences *)
-Lemma ll_lp_name_fixed p :
-  ll_lp_name fixed p = match para_licence p with Some l => lic_name l | None => None end.
+Lemma ll_lp_name_good v p : good v ->
+  ll_lp_name v p = match xlicence p with Some l => lic_name l | None => None end.
 Proof.
-  unfold ll_lp_name, para_licence, license_of_str. cbn [v_lp_name fixed].
+  intro G. norm v G.
+  unfold ll_lp_name, para_licence_w, license_of_str. cbn [v_lp_name].
   destruct (pget p k_License) as [x|]; cbn [option_map]; [|reflexivity].
   destruct (split_once_lf x) as [[n t]|]; [|reflexivity]. destruct n; reflexivity.
 Qed.
 
-Lemma ll_fp_license_spec p : ll_fp_license p = para_licence p.
+Lemma ll_fp_license_spec p : ll_fp_license p = xlicence p.
 Proof. reflexivity. Qed.
 
 Lemma lic_text_none l : lic_text l = None -> exists n, l = LName n.
 Proof. destruct l; cbn; intro H; try discriminate. eexists. reflexivity. Qed.
 
 (* ---------------------------------------------------------------- any_match *)
+Definition ok_or_panic {A} (r : res A) : Prop := (exists a, r = Ok a) \/ (exists k, r = Panic k).
+
+Lemma glob_is_match_iff g p : glob_is_match true g p = true <-> glob_matches g p.
+Proof.
+  unfold glob_is_match, try_glob_to_regex.
+  destruct (glob_to_regex_cases g) as [[V [r E]]|[V [k E]]]; rewrite E.
+  - rewrite (rmatch_spec g r E p). apply spec_match_iff. exact V.
+  - split; [discriminate|]. intro H. apply glob_matches_valid in H. congruence.
+Qed.
+
+Lemma any_match_lenient d fs path :
+  any_match d true fs path = Ok (existsb (fun g => glob_is_match d g path) fs).
+Proof.
+  induction fs as [|g fs IH]; [reflexivity|]. cbn [any_match existsb].
+  destruct (glob_is_match d g path); [reflexivity|exact IH].
+Qed.
+
 Lemma any_match_valid fs path : Forall (fun g => valid_escapes g = true) fs ->
-  any_match true fs path = Ok (existsb (fun g => spec_match g path) fs).
+  any_match true false fs path = Ok (existsb (fun g => spec_match g path) fs).
 Proof.
   induction 1 as [|g fs V _ IH]; [reflexivity|].
   cbn [any_match existsb]. destruct (glob_correct g V) as [r [_ H]].
@@ -134,10 +178,24 @@ Proof.
   - apply spec_match_iff; auto.
 Qed.
 
-(* any_match only ever answers or panics *)
-Lemma any_match_shape d fs path :
-  (exists b, any_match d fs path = Ok b) \/ (exists k, any_match d fs path = Panic k).
+(* with the lenient matcher for every pattern list; without it for valid ones *)
+Lemma any_match_spec l fs path : l = true \/ Forall (fun g => valid_escapes g = true) fs ->
+  exists b, any_match true l fs path = Ok b /\ (b = true <-> exists g, In g fs /\ glob_matches g path).
 Proof.
+  intros [->|V].
+  - rewrite any_match_lenient. eexists. split; [reflexivity|].
+    rewrite existsb_exists. split; intros [g [Hi Hm]]; exists g; split; auto; apply glob_is_match_iff; exact Hm.
+  - destruct l.
+    + rewrite any_match_lenient. eexists. split; [reflexivity|].
+      rewrite existsb_exists. split; intros [g [Hi Hm]]; exists g; split; auto; apply glob_is_match_iff; exact Hm.
+    + rewrite (any_match_valid _ path V). eexists. split; [reflexivity|].
+      apply existsb_glob_matches. exact V.
+Qed.
+
+(* any_match only ever answers or panics; with the lenient matcher it always answers *)
+Lemma any_match_shape d l fs path : ok_or_panic (any_match d l fs path).
+Proof.
+  destruct l; [left; rewrite any_match_lenient; eexists; reflexivity|].
   induction fs as [|g fs IH]; [left; exists false; reflexivity|].
   cbn [any_match]. destruct (glob_match_shape d g path) as [[b E]|[k E]]; rewrite E.
   - destruct b; [left; exists true; reflexivity|exact IH].
@@ -235,75 +293,74 @@ Proof.
 Qed.
 
 (* ---------------------------------------------------------------- lossless lookups *)
-Lemma ll_iter_files_fixed d : ll_iter_files fixed d = files_paragraphs d.
-Proof. reflexivity. Qed.
-Lemma ll_iter_licenses_fixed d : ll_iter_licenses fixed d = licence_paragraphs d.
-Proof. reflexivity. Qed.
+Lemma ll_iter_files_good v d : good v -> ll_iter_files v d = xfiles d.
+Proof. intro G. norm v G. reflexivity. Qed.
+Lemma ll_iter_licenses_good v d : good v -> ll_iter_licenses v d = xlicences d.
+Proof. intro G. norm v G. reflexivity. Qed.
 
-Lemma ll_matches_spec p path : has p k_Files = true ->
-  Forall (fun g => valid_escapes g = true) (patterns p) ->
-  exists b, ll_matches fixed p path = Ok b /\ (b = true <-> para_matches p path).
+Lemma ll_matches_spec v p path : good v -> has p k_Files = true ->
+  v_lenient v = true \/ Forall (fun g => valid_escapes g = true) (xpatterns p) ->
+  exists b, ll_matches v p path = Ok b /\ (b = true <-> xmatches p path).
 Proof.
-  intros Hf V. apply has_true in Hf. destruct Hf as [x Ex].
-  unfold ll_matches, ll_files, para_matches, patterns in *. rewrite Ex in *. cbn [bind v_dotall fixed].
-  rewrite (any_match_valid _ path V). eexists. split; [reflexivity|].
-  apply existsb_glob_matches. exact V.
+  intros G Hf V. norm v G. cbn [v_lenient] in V. apply has_true in Hf. destruct Hf as [x Ex].
+  unfold ll_matches, ll_files, para_matches_w, patterns_w in *. rewrite Ex in *.
+  cbn [bind v_dotall v_lenient]. apply any_match_spec. exact V.
 Qed.
 
-Theorem ll_find_files_last d path : doc_valid d ->
-  exists r, ll_find_files fixed d path = Ok r /\
-            is_last_such (fun p => para_matches p path) (files_paragraphs d) r.
+Theorem ll_find_files_last v d path : good v -> v_lenient v = true \/ xvalid d ->
+  exists r, ll_find_files v d path = Ok r /\ is_last_such (fun p => xmatches p path) (xfiles d) r.
 Proof.
-  intro V. unfold ll_find_files. change (ll_iter_files fixed d) with (files_paragraphs d).
-  apply last_match_spec. intros p Hp. apply ll_matches_spec.
-  - unfold files_paragraphs in Hp. apply filter_In in Hp. tauto.
-  - apply Forall_forall. intros g Hg. exact (V p g Hp Hg).
+  intros G V. unfold ll_find_files. rewrite (ll_iter_files_good v d G).
+  apply last_match_spec. intros p Hp. apply ll_matches_spec; [exact G| |].
+  - unfold files_paragraphs_w in Hp. apply filter_In in Hp. tauto.
+  - destruct V as [V|V]; [left; exact V|right].
+    apply Forall_forall. intros g Hg. exact (V p g Hp Hg).
 Qed.
 
-Lemma named_iff n p : opt_str_eqb (ll_lp_name fixed p) n = true <-> named n p.
+Lemma named_iff v n p : good v -> (opt_str_eqb (ll_lp_name v p) n = true <-> xnamed n p).
 Proof.
-  rewrite opt_str_eqb_eq, ll_lp_name_fixed. unfold named. destruct (para_licence p) as [l|].
+  intro G. rewrite opt_str_eqb_eq, (ll_lp_name_good v p G). unfold named_w.
+  destruct (xlicence p) as [l|].
   - split; [intro H; exists l; auto|]. intros [l' [E H]]. injection E as <-. exact H.
   - split; [discriminate|]. intros [l' [E _]]. discriminate.
 Qed.
 
-Theorem ll_find_license_by_name_first d n :
-  exists q, is_first_such (named n) (licence_paragraphs d) q /\
-    ll_find_license_by_name fixed d n =
-      Ok (match q with Some q' => para_licence q' | None => None end).
+Theorem ll_find_license_by_name_first v d n : good v ->
+  exists q, is_first_such (xnamed n) (xlicences d) q /\
+    ll_find_license_by_name v d n =
+      Ok (match q with Some q' => xlicence q' | None => None end).
 Proof.
-  unfold ll_find_license_by_name. change (ll_iter_licenses fixed d) with (licence_paragraphs d).
-  pose proof (find_first_such (fun p => opt_str_eqb (ll_lp_name fixed p) n) (named n)
-                (licence_paragraphs d) (fun p _ => named_iff n p)) as F.
-  exists (find (fun p => opt_str_eqb (ll_lp_name fixed p) n) (licence_paragraphs d)).
+  intro G. unfold ll_find_license_by_name. rewrite (ll_iter_licenses_good v d G).
+  pose proof (find_first_such (fun p => opt_str_eqb (ll_lp_name v p) n) (xnamed n)
+                (xlicences d) (fun p _ => named_iff v n p G)) as F.
+  exists (find (fun p => opt_str_eqb (ll_lp_name v p) n) (xlicences d)).
   split; [exact F|].
-  destruct (find _ (licence_paragraphs d)) as [q|] eqn:Eq; [|reflexivity].
+  destruct (find _ (xlicences d)) as [q|] eqn:Eq; [|reflexivity].
   apply find_some in Eq. destruct Eq as [Hin _].
-  unfold licence_paragraphs in Hin. apply filter_In in Hin. destruct Hin as [_ Hl].
+  unfold licence_paragraphs_w in Hin. apply filter_In in Hin. destruct Hin as [_ Hl].
   apply andb_true_iff in Hl. destruct Hl as [_ Hl]. apply has_true in Hl. destruct Hl as [x Ex].
-  unfold ll_lp_license, para_licence. rewrite Ex. reflexivity.
+  unfold ll_lp_license, para_licence_w. rewrite Ex. reflexivity.
 Qed.
 
-Theorem ll_license_rule d path : doc_valid d ->
-  exists r ans, ll_find_files fixed d path = Ok r /\
-                is_last_such (fun p => para_matches p path) (files_paragraphs d) r /\
-                ll_find_license_for_file fixed d path = Ok ans /\
-                licence_answer d r ans.
+Theorem ll_license_rule v d path : good v -> v_lenient v = true \/ xvalid d ->
+  exists r ans, ll_find_files v d path = Ok r /\
+                is_last_such (fun p => xmatches p path) (xfiles d) r /\
+                ll_find_license_for_file v d path = Ok ans /\
+                xanswer d r ans.
 Proof.
-  intro V. destruct (ll_find_files_last d path V) as [r [Er Hr]].
+  intros G V. destruct (ll_find_files_last v d path G V) as [r [Er Hr]].
   exists r. unfold ll_find_license_for_file. rewrite Er. cbn [bind].
-  destruct r as [[j p]|]; cbn [licence_answer]; [|exists None; auto].
+  destruct r as [[j p]|]; cbn [licence_answer_w]; [|exists None; auto].
   rewrite ll_fp_license_spec.
-  destruct (para_licence p) as [own|] eqn:Eo; [|exists None; auto].
+  destruct (xlicence p) as [own|] eqn:Eo; [|exists None; auto].
   destruct (lic_text own) as [t|] eqn:Et.
   - exists (Some own). auto.
   - destruct (lic_text_none own Et) as [n ->]. cbn [lic_name].
-    destruct (ll_find_license_by_name_first d n) as [q [Fq Eq]].
+    destruct (ll_find_license_by_name_first v d n G) as [q [Fq Eq]].
     eexists. split; [reflexivity|]. split; [exact Hr|]. split; [exact Eq|]. exists n, q. auto.
 Qed.
 
 (* ---------------------------------------------------------------- lossy reader *)
-
 Lemma ly_body_rel v : forall body fl, ly_body v body = Ok fl ->
   Forall2 (files_conv v) (filter (fun p => has p k_Files) body) (fst fl) /\
   Forall2 licence_conv (filter (fun p => negb (has p k_Files) && has p k_License) body) (snd fl).
@@ -330,13 +387,13 @@ Proof.
 Qed.
 
 Lemma ly_of_doc_rel v d c : ly_of_doc v d = Ok c ->
-  Forall2 (files_conv v) (filter (fun p => has p k_Files) (tl d)) (c_files c) /\
-  Forall2 licence_conv (filter (fun p => negb (has p k_Files) && has p k_License) (tl d)) (c_licenses c).
+  Forall2 (files_conv v) (xfiles d) (c_files c) /\ Forall2 licence_conv (xlicences d) (c_licenses c).
 Proof.
   unfold ly_of_doc. destruct d as [|h body]; [discriminate|].
   destruct (ly_header v h) as [hd| | |]; cbn [bind]; try discriminate.
   destruct (ly_body v body) as [fl| | |] eqn:Eb; cbn [bind]; try discriminate.
-  intro E. injection E as <-. cbn [tl c_files c_licenses]. apply ly_body_rel. exact Eb.
+  intro E. injection E as <-. cbn [tl c_files c_licenses].
+  unfold files_paragraphs_w, licence_paragraphs_w. cbn [tl]. apply ly_body_rel. exact Eb.
 Qed.
 
 Lemma files_conv_inv v p fp : files_conv v p fp ->
@@ -358,62 +415,63 @@ Proof.
   intro E. injection E as <-. exists li. auto.
 Qed.
 
-Lemma matches_agree p fp path : files_conv fixed p fp ->
-  ll_matches fixed p path = ly_matches fixed fp path.
+Lemma matches_agree v p fp path : good v -> files_conv v p fp ->
+  ll_matches v p path = ly_matches v fp path.
 Proof.
-  intro H. destruct (files_conv_inv _ _ _ H) as [fl [li [co [Ef [_ [_ ->]]]]]].
-  unfold ll_matches, ly_matches, ll_files. rewrite Ef. reflexivity.
+  intros G H. destruct (files_conv_inv _ _ _ H) as [fl [li [co [Ef [_ [_ ->]]]]]].
+  norm v G. unfold ll_matches, ly_matches, ll_files. rewrite Ef. reflexivity.
 Qed.
 
-Theorem find_files_agree d c path : ly_of_doc fixed d = Ok c ->
-  found_rel (files_conv fixed) (ll_find_files fixed d path) (ly_find_files fixed c path).
+Theorem find_files_agree v d c path : good v -> ly_of_doc v d = Ok c ->
+  found_rel (files_conv v) (ll_find_files v d path) (ly_find_files v c path).
 Proof.
-  intro E. destruct (ly_of_doc_rel _ _ _ E) as [HF _].
-  unfold ll_find_files, ly_find_files. apply last_match_rel; [exact HF| |exact I].
-  intros p fp R. apply matches_agree. exact R.
+  intros G E. destruct (ly_of_doc_rel _ _ _ E) as [HF _].
+  unfold ll_find_files, ly_find_files. rewrite (ll_iter_files_good v d G).
+  apply last_match_rel; [exact HF| |exact I].
+  intros p fp R. apply matches_agree; assumption.
 Qed.
 
-Theorem find_license_by_name_agree d c n : ly_of_doc fixed d = Ok c ->
-  ll_find_license_by_name fixed d n = Ok (ly_find_license_by_name c n).
+Theorem find_license_by_name_agree v d c n : good v -> ly_of_doc v d = Ok c ->
+  ll_find_license_by_name v d n = Ok (ly_find_license_by_name c n).
 Proof.
-  intro E. destruct (ly_of_doc_rel _ _ _ E) as [_ HL].
+  intros G E. destruct (ly_of_doc_rel _ _ _ E) as [_ HL].
   unfold ll_find_license_by_name, ly_find_license_by_name.
-  pose proof (find_rel (fun p => opt_str_eqb (ll_lp_name fixed p) n)
+  pose proof (find_rel (fun p => opt_str_eqb (ll_lp_name v p) n)
                        (fun lp => opt_str_eqb (lic_name (lp_license lp)) n) licence_conv _ _ HL) as F.
   assert (Hp : forall a b, licence_conv a b ->
-            opt_str_eqb (ll_lp_name fixed a) n = opt_str_eqb (lic_name (lp_license b)) n).
+            opt_str_eqb (ll_lp_name v a) n = opt_str_eqb (lic_name (lp_license b)) n).
   { intros a b R. destruct (licence_conv_inv _ _ R) as [li [El ->]].
-    rewrite ll_lp_name_fixed. unfold para_licence. rewrite El. reflexivity. }
-  specialize (F Hp). unfold ll_iter_licenses. cbn [v_skip_header fixed ll_body].
-  destruct (find _ (filter _ (tl d))) as [q|]; destruct (find _ (c_licenses c)) as [lp|]; try contradiction.
+    rewrite (ll_lp_name_good v a G). unfold para_licence_w. rewrite El. reflexivity. }
+  specialize (F Hp). rewrite (ll_iter_licenses_good v d G).
+  destruct (find _ (xlicences d)) as [q|]; destruct (find _ (c_licenses c)) as [lp|]; try contradiction.
   - destruct (licence_conv_inv _ _ F) as [li [El ->]].
     unfold ll_lp_license. rewrite El. reflexivity.
   - reflexivity.
 Qed.
 
-Theorem find_license_for_file_agree d c path : ly_of_doc fixed d = Ok c ->
-  ll_find_license_for_file fixed d path = ly_find_license_for_file fixed c path.
+Theorem find_license_for_file_agree v d c path : good v -> ly_of_doc v d = Ok c ->
+  ll_find_license_for_file v d path = ly_find_license_for_file v c path.
 Proof.
-  intro E. pose proof (find_files_agree d c path E) as F.
+  intros G E. pose proof (find_files_agree v d c path G E) as F.
   unfold ll_find_license_for_file, ly_find_license_for_file.
-  destruct (ll_find_files fixed d path) as [[[i p]|]|e|n|];
-    destruct (ly_find_files fixed c path) as [[[j fp]|]|e'|n'|]; cbn [found_rel] in F; try contradiction;
+  destruct (ll_find_files v d path) as [[[i p]|]|e|n|];
+    destruct (ly_find_files v c path) as [[[j fp]|]|e'|n'|]; cbn [found_rel] in F; try contradiction;
     cbn [bind]; try reflexivity; try congruence.
   destruct F as [_ R]. destruct (files_conv_inv _ _ _ R) as [fl [li [co [_ [El [_ ->]]]]]].
   unfold ll_fp_license. rewrite El. cbn [option_map lf_license].
   destruct (lic_text (license_of_str li)) as [t|] eqn:Et; [reflexivity|].
   destruct (lic_text_none _ Et) as [n ->]. cbn [lic_name].
-  apply find_license_by_name_agree. exact E.
+  apply find_license_by_name_agree; assumption.
 Qed.
 
-Theorem wf_doc_accepted v d : wf_doc d -> exists c, ly_of_doc v d = Ok c.
+Theorem wf_doc_accepted v d : xwf d -> exists c, ly_of_doc v d = Ok c.
 Proof.
   destruct d as [|h body]; [intros []|]. intros [Hh Hb].
   unfold ly_of_doc, ly_header, req. apply has_true in Hh. destruct Hh as [f Ef]. rewrite Ef. cbn [bind].
   assert (Hbody : exists fl, ly_body v body = Ok fl).
   { induction body as [|p body IH]; [eexists; reflexivity|].
     cbn [forallb] in Hb. apply andb_true_iff in Hb. destruct Hb as [Hp Hb].
-    destruct (IH Hb) as [fl Efl]. cbn [ly_body]. unfold wf_body_para in Hp.
+    destruct (IH Hb) as [fl Efl]. cbn [ly_body]. unfold wf_body_para_w in Hp.
     apply orb_true_iff in Hp. destruct Hp as [Hp|Hp].
     - apply andb_true_iff in Hp. destruct Hp as [Hp Hc]. apply andb_true_iff in Hp. destruct Hp as [Hf Hl].
       apply has_true in Hf, Hl, Hc. destruct Hf as [x Ex], Hl as [y Ey], Hc as [z Ez].
@@ -426,15 +484,14 @@ Proof.
 Qed.
 
 (* the lossy reader's own "last match wins", directly on its paragraphs *)
-Theorem ly_find_files_last c path :
-  Forall (fun fp => Forall (fun g => valid_escapes g = true) (lf_files fp)) (c_files c) ->
-  exists r, ly_find_files fixed c path = Ok r /\
+Theorem ly_find_files_last v c path : good v ->
+  v_lenient v = true \/ Forall (fun fp => Forall (fun g => valid_escapes g = true) (lf_files fp)) (c_files c) ->
+  exists r, ly_find_files v c path = Ok r /\
     is_last_such (fun fp => exists g, In g (lf_files fp) /\ glob_matches g path) (c_files c) r.
 Proof.
-  intro V. unfold ly_find_files. apply last_match_spec. intros fp Hfp.
-  rewrite Forall_forall in V. specialize (V fp Hfp).
-  unfold ly_matches. cbn [v_dotall fixed]. rewrite (any_match_valid _ path V).
-  eexists. split; [reflexivity|]. apply existsb_glob_matches. exact V.
+  intros G V. unfold ly_find_files. apply last_match_spec. intros fp Hfp.
+  norm v G. unfold ly_matches. cbn [v_dotall v_lenient] in *. apply any_match_spec.
+  destruct V as [V|V]; [left; exact V|right]. rewrite Forall_forall in V. exact (V fp Hfp).
 Qed.
 
 (* ---------------------------------------------------------------- text entry points *)
@@ -486,6 +543,136 @@ Proof.
   - destruct (format_gate_refuses v s G) as [E1 [E2 E3]]. rewrite E1, E2, E3. repeat split; auto.
 Qed.
 
+(* ---------------------------------------------------------------- field names: exact case vs any case *)
+Lemma ci_eqb_refl k : ci_eqb k k = true.
+Proof. unfold ci_eqb. apply str_eqb_refl. Qed.
+
+Lemma exact_case_name_eq k K : In K special_names -> exact_case_name k = true ->
+  ci_eqb k K = str_eqb k K.
+Proof.
+  intros HK H. unfold exact_case_name in H. rewrite forallb_forall in H. specialize (H K HK).
+  destruct (str_eqb k K) eqn:Es.
+  - apply list_eqb_N_eq in Es. subst. apply ci_eqb_refl.
+  - destruct (ci_eqb k K); [discriminate|reflexivity].
+Qed.
+
+Lemma sget_pget p K : In K special_names -> exact_case_para p = true -> sget p K = pget p K.
+Proof.
+  intros HK. induction p as [|[k x] p IH]; intro H; [reflexivity|].
+  cbn [exact_case_para forallb fst] in H. apply andb_true_iff in H. destruct H as [Hk Hp].
+  cbn [sget pget]. rewrite (exact_case_name_eq k K HK Hk). destruct (str_eqb k K); [reflexivity|].
+  apply IH. exact Hp.
+Qed.
+
+Lemma exact_case_in d p : exact_case d -> In p d -> exact_case_para p = true.
+Proof. unfold exact_case. rewrite forallb_forall. auto. Qed.
+Lemma in_tl {A} (x : A) l : In x (tl l) -> In x l.
+Proof. destruct l; [intros []|]. cbn. auto. Qed.
+
+Lemma special_Files : In k_Files special_names. Proof. cbn. auto. Qed.
+Lemma special_License : In k_License special_names. Proof. cbn. auto. Qed.
+Lemma special_Copyright : In k_Copyright special_names. Proof. cbn. auto 6. Qed.
+Lemma special_Format : In k_Format special_names. Proof. cbn. auto 6. Qed.
+
+Section Exact.
+  Variable p : para.
+  Hypothesis Hp : exact_case_para p = true.
+  Lemma x_has K : In K special_names -> has_w sget p K = has_w pget p K.
+  Proof. intro HK. unfold has_w. rewrite (sget_pget p K HK Hp). reflexivity. Qed.
+  Lemma x_patterns : patterns_w sget p = xpatterns p.
+  Proof. unfold patterns_w. rewrite (sget_pget p _ special_Files Hp). reflexivity. Qed.
+  Lemma x_licence : para_licence_w sget p = xlicence p.
+  Proof. unfold para_licence_w. rewrite (sget_pget p _ special_License Hp). reflexivity. Qed.
+  Lemma x_matches path : para_matches_w sget p path <-> xmatches p path.
+  Proof. unfold para_matches_w. rewrite x_patterns. reflexivity. Qed.
+  Lemma x_named n : named_w sget n p <-> xnamed n p.
+  Proof. unfold named_w. rewrite x_licence. reflexivity. Qed.
+  Lemma x_wf_body : wf_body_para_w sget p = wf_body_para_w pget p.
+  Proof.
+    unfold wf_body_para_w.
+    rewrite (x_has _ special_Files), (x_has _ special_License), (x_has _ special_Copyright). reflexivity.
+  Qed.
+End Exact.
+
+Lemma x_files d : exact_case d -> files_paragraphs d = xfiles d.
+Proof.
+  intro H. unfold files_paragraphs, files_paragraphs_w. apply filter_ext_in. intros p Hp.
+  apply x_has; [|exact special_Files]. apply (exact_case_in d p H). apply in_tl. exact Hp.
+Qed.
+Lemma x_licences d : exact_case d -> licence_paragraphs d = xlicences d.
+Proof.
+  intro H. unfold licence_paragraphs, licence_paragraphs_w. apply filter_ext_in. intros p Hp.
+  assert (Ep : exact_case_para p = true) by (apply (exact_case_in d p H); apply in_tl; exact Hp).
+  rewrite (x_has p Ep _ special_Files), (x_has p Ep _ special_License). reflexivity.
+Qed.
+Lemma xfiles_in d p : In p (xfiles d) -> In p d.
+Proof. unfold files_paragraphs_w. intro H. apply filter_In in H. apply in_tl. tauto. Qed.
+Lemma xlicences_in d p : In p (xlicences d) -> In p d.
+Proof. unfold licence_paragraphs_w. intro H. apply filter_In in H. apply in_tl. tauto. Qed.
+
+Lemma x_valid d : exact_case d -> (doc_valid d <-> xvalid d).
+Proof.
+  intro H. unfold doc_valid, doc_valid_w. fold (files_paragraphs d). rewrite (x_files d H).
+  split; intros V p g Hp Hg; apply (V p g Hp);
+    pose proof (exact_case_in d p H (xfiles_in d p Hp)) as Ep.
+  - rewrite (x_patterns p Ep). exact Hg.
+  - rewrite <- (x_patterns p Ep). exact Hg.
+Qed.
+
+Lemma x_wf d : exact_case d -> wf_doc d -> xwf d.
+Proof.
+  intro H. destruct d as [|h body]; [intros []|]. intros [Hh Hb]. split.
+  - rewrite <- (x_has h (exact_case_in _ h H (or_introl eq_refl)) _ special_Format). exact Hh.
+  - rewrite forallb_forall in *. intros p Hp.
+    rewrite <- (x_wf_body p (exact_case_in _ p H (or_intror Hp))). apply Hb. exact Hp.
+Qed.
+
+Lemma is_last_such_ext {A} (P Q : A -> Prop) l r : (forall x, In x l -> (P x <-> Q x)) ->
+  is_last_such P l r -> is_last_such Q l r.
+Proof.
+  intro E. unfold is_last_such. destruct r as [[j x]|].
+  - intros [pre [post [El [Ej [Px Hpost]]]]]. exists pre, post. subst l.
+    split; [reflexivity|]. split; [exact Ej|]. split.
+    + apply E; [apply in_or_app; right; left; reflexivity|exact Px].
+    + intros y Hy Qy. apply (Hpost y Hy). apply E; [apply in_or_app; right; right; exact Hy|exact Qy].
+  - intros H x Hx Qx. apply (H x Hx). apply E; assumption.
+Qed.
+Lemma is_first_such_ext {A} (P Q : A -> Prop) l r : (forall x, In x l -> (P x <-> Q x)) ->
+  is_first_such P l r -> is_first_such Q l r.
+Proof.
+  intro E. unfold is_first_such. destruct r as [x|].
+  - intros [pre [post [El [Px Hpre]]]]. exists pre, post. subst l.
+    split; [reflexivity|]. split.
+    + apply E; [apply in_or_app; right; left; reflexivity|exact Px].
+    + intros y Hy Qy. apply (Hpre y Hy). apply E; [apply in_or_app; left; exact Hy|exact Qy].
+  - intros H x Hx Qx. apply (H x Hx). apply E; assumption.
+Qed.
+Lemma is_last_such_in {A} (P : A -> Prop) l j x : is_last_such P l (Some (j, x)) -> In x l.
+Proof. intros [pre [post [-> _]]]. apply in_or_app. right. left. reflexivity. Qed.
+Lemma is_first_such_in {A} (P : A -> Prop) l x : is_first_such P l (Some x) -> In x l.
+Proof. intros [pre [post [-> _]]]. apply in_or_app. right. left. reflexivity. Qed.
+
+(* the code's answers, read in the specification's (case-insensitive) vocabulary *)
+Lemma x_lookup d path r ans : exact_case d ->
+  is_last_such (fun p => xmatches p path) (xfiles d) r -> xanswer d r ans ->
+  is_last_such (fun p => para_matches p path) (files_paragraphs d) r /\ licence_answer d r ans.
+Proof.
+  intros H Hr Ha. split.
+  - rewrite (x_files d H). apply (is_last_such_ext (fun p => xmatches p path)); [|exact Hr].
+    intros p Hp. symmetry. apply x_matches. apply (exact_case_in d p H). apply xfiles_in. exact Hp.
+  - unfold licence_answer, licence_answer_w in *. destruct r as [[j p]|]; [|exact Ha].
+    assert (Ep : exact_case_para p = true)
+      by (apply (exact_case_in d p H); apply xfiles_in; apply (is_last_such_in _ _ _ _ Hr)).
+    rewrite (x_licence p Ep). destruct (xlicence p) as [own|]; [|exact Ha].
+    destruct (lic_text own); [exact Ha|].
+    destruct Ha as [n [q [En [Hq Ea]]]]. exists n, q. split; [exact En|].
+    fold (licence_paragraphs d). rewrite (x_licences d H). split.
+    + apply (is_first_such_ext (xnamed n)); [|exact Hq].
+      intros p' Hp'. symmetry. apply x_named. apply (exact_case_in d p' H). apply xlicences_in. exact Hp'.
+    + destruct q as [q'|]; [|exact Ea]. rewrite Ea. symmetry. apply x_licence.
+      apply (exact_case_in d q' H). apply xlicences_in. apply (is_first_such_in _ _ _ Hq).
+Qed.
+
 (* ---------------------------------------------------------------- the property, assembled *)
 Lemma glob_clause_fixed : glob_clause true.
 Proof.
@@ -493,28 +680,63 @@ Proof.
   exists (spec_match g p). split; [exact E|]. apply spec_match_iff. exact V.
 Qed.
 
-Lemma lookup_clause_fixed : lookup_clause fixed.
-Proof. intros d path V. apply ll_license_rule. exact V. Qed.
-
-Lemma agree_clause_fixed : agree_clause fixed.
+(* with C17-invalid-glob-escape: every document outside field-name-case, valid patterns or not *)
+Lemma lookup_clause_lenient v : good v -> v_lenient v = true -> lookup_clause v.
 Proof.
-  intros d c E path. split; [apply find_files_agree; exact E|].
-  split; [apply find_license_for_file_agree; exact E|].
-  intro n. apply find_license_by_name_agree. exact E.
+  intros G L d path H.
+  destruct (ll_license_rule v d path G (or_introl L)) as [r [ans [Er [Hr [Ea Hl]]]]].
+  exists r, ans. destruct (x_lookup d path r ans H Hr Hl) as [H1 H2]. auto.
 Qed.
+(* without it: documents whose patterns all have valid escapes *)
+Lemma lookup_clause_valid_good v : good v -> lookup_clause_valid v.
+Proof.
+  intros G d path H V. apply (x_valid d H) in V.
+  destruct (ll_license_rule v d path G (or_intror V)) as [r [ans [Er [Hr [Ea Hl]]]]].
+  exists r, ans. destruct (x_lookup d path r ans H Hr Hl) as [H1 H2]. auto.
+Qed.
+
+Lemma agree_clause_good v : good v -> agree_clause v.
+Proof.
+  intros G d c E path. split; [apply find_files_agree; assumption|].
+  split; [apply find_license_for_file_agree; assumption|].
+  intro n. apply find_license_by_name_agree; assumption.
+Qed.
+
+Lemma accept_clause_any v : accept_clause v.
+Proof. intros d H W. apply wf_doc_accepted. apply x_wf; assumption. Qed.
 
 Lemma gate_clause_any v : gate_clause v.
 Proof. intro s. apply not_machine_readable_iff. Qed.
 
 Theorem C17_all : C17_full fixed.
 Proof.
-  split; [exact glob_clause_fixed|]. split; [exact lookup_clause_fixed|].
-  split; [exact agree_clause_fixed|]. split; [exact (wf_doc_accepted fixed)|exact (gate_clause_any fixed)].
+  split; [exact glob_clause_fixed|]. split; [exact (lookup_clause_lenient fixed good_fixed eq_refl)|].
+  split; [exact (agree_clause_good fixed good_fixed)|].
+  split; [exact (accept_clause_any fixed)|exact (gate_clause_any fixed)].
+Qed.
+
+(* iter_files / iter_licenses against the specification *)
+Lemma iter_spec v d : good v -> exact_case d ->
+  ll_iter_files v d = files_paragraphs d /\ ll_iter_licenses v d = licence_paragraphs d.
+Proof.
+  intros G H. rewrite (ll_iter_files_good v d G), (ll_iter_licenses_good v d G), (x_files d H), (x_licences d H).
+  split; reflexivity.
+Qed.
+
+Theorem find_license_by_name_spec v d n : good v -> exact_case d ->
+  exists q, is_first_such (named n) (licence_paragraphs d) q /\
+    ll_find_license_by_name v d n =
+      Ok (match q with Some q' => para_licence q' | None => None end).
+Proof.
+  intros G H. destruct (ll_find_license_by_name_first v d n G) as [q [Hq E]]. exists q. split.
+  - rewrite (x_licences d H). apply (is_first_such_ext (xnamed n)); [|exact Hq].
+    intros p Hp. symmetry. apply x_named. apply (exact_case_in d p H). apply xlicences_in. exact Hp.
+  - rewrite E. destruct q as [q'|]; [|reflexivity]. unfold para_licence.
+    rewrite (x_licence q'); [reflexivity|].
+    apply (exact_case_in d q' H). apply xlicences_in. apply (is_first_such_in _ _ _ Hq).
 Qed.
 
 (* ---------------------------------------------------------------- totality (any variant, any document) *)
-Definition ok_or_panic {A} (r : res A) : Prop := (exists a, r = Ok a) \/ (exists k, r = Panic k).
-
 Lemma last_match_shape {A} (pred : A -> res bool) : forall l,
   (forall x, In x l -> ok_or_panic (pred x)) ->
   forall i acc, ok_or_panic (last_match pred l i acc).
@@ -525,6 +747,17 @@ Proof.
     destruct (H x (or_introl eq_refl)) as [[b E]|[k E]]; rewrite E.
     + destruct b; apply IH; exact H'.
     + right. eexists. reflexivity.
+Qed.
+
+(* a panic of filter-last is a panic of the predicate on some element *)
+Lemma last_match_panic {A} (pred : A -> res bool) k : forall l i acc,
+  last_match pred l i acc = Panic k -> exists x, In x l /\ pred x = Panic k.
+Proof.
+  induction l as [|x l IH]; intros i acc E; cbn [last_match] in E; [discriminate|].
+  destruct (pred x) as [[|]| |k'|] eqn:Ex; try discriminate.
+  - destruct (IH _ _ E) as [y [Hy Ey]]. exists y. split; [right; exact Hy|exact Ey].
+  - destruct (IH _ _ E) as [y [Hy Ey]]. exists y. split; [right; exact Hy|exact Ey].
+  - injection E as ->. exists x. split; [left; reflexivity|exact Ex].
 Qed.
 
 Lemma ll_iter_files_has v d p : In p (ll_iter_files v d) -> has p k_Files = true.
@@ -567,6 +800,32 @@ Proof.
   unfold ly_find_files. apply last_match_shape. intros fp _. unfold ly_matches. apply any_match_shape.
 Qed.
 
+(* the only panics the pattern matching can produce are those of glob_to_regex: sites 1 and 2 *)
+Lemma glob_to_regex_site g k : glob_to_regex g = Panic k -> k = 1%N \/ k = 2%N.
+Proof.
+  assert (Hs : forall n g, (length g <= n)%nat -> forall k, glob_to_regex g = Panic k -> k = 1%N \/ k = 2%N).
+  { clear. induction n as [|n IH]; intros g Hl k.
+    - destruct g; [discriminate|cbn in Hl; lia].
+    - destruct g as [|c g]; [discriminate|]. cbn [length] in Hl. cbn [glob_to_regex].
+      assert (Hr : forall a g', (length g' <= n)%nat -> rcons a (glob_to_regex g') = Panic k -> k = 1%N \/ k = 2%N).
+      { intros a g' Hg'. specialize (IH g' Hg' k). unfold rcons, rmap, bind.
+        destruct (glob_to_regex g'); try discriminate. intro E. injection E as ->. apply IH. reflexivity. }
+      destruct (c =? 42)%N; [apply Hr; lia|]. destruct (c =? 63)%N; [apply Hr; lia|].
+      destruct (c =? 92)%N; [|apply Hr; lia].
+      destruct g as [|x g']; [intro E; injection E as <-; auto|]. cbn [length] in Hl.
+      destruct (is_glob_special x); [apply Hr; lia|intro E; injection E as <-; auto]. }
+  exact (Hs (length g) g (le_n _) k).
+Qed.
+
+Lemma any_match_site d l fs path k : any_match d l fs path = Panic k -> k = 1%N \/ k = 2%N.
+Proof.
+  destruct l; [rewrite any_match_lenient; discriminate|].
+  induction fs as [|g fs IH]; [discriminate|]. cbn [any_match]. unfold glob_match.
+  destruct (glob_to_regex g) as [r| |k'|] eqn:Eg; cbn [bind]; try discriminate.
+  - destruct (rmatch d r path); [discriminate|exact IH].
+  - intro E. injection E as ->. exact (glob_to_regex_site g k Eg).
+Qed.
+
 Lemma ly_find_license_for_file_shape v c path :
   ok_or_panic (ly_find_license_for_file v c path) /\ ly_find_license_for_file v c path <> Panic 12%N.
 Proof.
@@ -575,53 +834,61 @@ Proof.
   - destruct r as [[j fp]|]; [|split; [left; eexists; reflexivity|discriminate]].
     destruct (lf_license fp); cbn [lic_text lic_name]; (split; [left; eexists; reflexivity|discriminate]).
   - split; [right; eexists; reflexivity|].
-    (* the only panics find_files can propagate are those of glob_to_regex: sites 1 and 2 *)
-    intro H. injection H as ->.
-    unfold ly_find_files in E. clear -E.
-    revert E. generalize 0 (@None (nat * lfiles)). induction (c_files c) as [|fp l IH]; intros i acc E.
-    + discriminate.
-    + cbn [last_match] in E. destruct (ly_matches v fp path) as [[|]| |k|] eqn:Em; try discriminate.
-      * exact (IH _ _ E).
-      * exact (IH _ _ E).
-      * injection E as ->. unfold ly_matches in Em. clear -Em.
-        induction (lf_files fp) as [|g fs IHf]; [discriminate|].
-        cbn [any_match] in Em. unfold glob_match in Em.
-        destruct (glob_to_regex g) as [r| |k|] eqn:Eg; cbn [bind] in Em.
-        -- destruct (rmatch (v_dotall v) r path); [discriminate|exact (IHf Em)].
-        -- discriminate.
-        -- injection Em as ->. clear -Eg.
-           assert (Hs : forall n g, (length g <= n)%nat -> glob_to_regex g <> Panic 12%N).
-           { clear. induction n as [|n IH]; intros g Hl.
-             - destruct g; [discriminate|cbn in Hl; lia].
-             - destruct g as [|c g]; [discriminate|]. cbn [length] in Hl. cbn [glob_to_regex].
-               assert (Hr : forall a g', (length g' <= n)%nat -> rcons a (glob_to_regex g') <> Panic 12%N).
-               { intros a g' Hg'. specialize (IH g' Hg'). unfold rcons, rmap, bind.
-                 destruct (glob_to_regex g'); congruence. }
-               destruct (c =? 42)%N; [apply Hr; lia|]. destruct (c =? 63)%N; [apply Hr; lia|].
-               destruct (c =? 92)%N; [|apply Hr; lia].
-               destruct g as [|x g']; [discriminate|]. cbn [length] in Hl.
-               destruct (is_glob_special x); [apply Hr; lia|discriminate]. }
-           exact (Hs (length g) g (le_n _) Eg).
-        -- discriminate.
+    intro H. injection H as ->. unfold ly_find_files in E.
+    destruct (last_match_panic _ _ _ _ _ E) as [fp [_ Ep]]. unfold ly_matches in Ep.
+    destruct (any_match_site _ _ _ _ _ Ep); discriminate.
+Qed.
+
+(* with C17-invalid-glob-escape nothing panics at all *)
+Lemma lookups_ok_lenient v d c path : v_lenient v = true ->
+  (exists r, ll_find_files v d path = Ok r) /\ (exists a, ll_find_license_for_file v d path = Ok a) /\
+  (exists r, ly_find_files v c path = Ok r) /\ (exists a, ly_find_license_for_file v c path = Ok a).
+Proof.
+  intro L.
+  assert (H1 : exists r, ll_find_files v d path = Ok r).
+  { destruct (ll_find_files_shape v d path) as [H|[k E]]; [exact H|exfalso].
+    unfold ll_find_files in E. destruct (last_match_panic _ _ _ _ _ E) as [p [Hp Ep]].
+    apply ll_iter_files_has in Hp. apply has_true in Hp. destruct Hp as [x Ex].
+    unfold ll_matches, ll_files in Ep. rewrite Ex, L in Ep. cbn [bind] in Ep.
+    rewrite any_match_lenient in Ep. discriminate. }
+  assert (H3 : exists r, ly_find_files v c path = Ok r).
+  { destruct (ly_find_files_shape v c path) as [H|[k E]]; [exact H|exfalso].
+    unfold ly_find_files in E. destruct (last_match_panic _ _ _ _ _ E) as [fp [_ Ep]].
+    unfold ly_matches in Ep. rewrite L, any_match_lenient in Ep. discriminate. }
+  split; [exact H1|]. split.
+  - destruct (ll_find_license_for_file_shape v d path) as [H|[k E]]; [exact H|exfalso].
+    unfold ll_find_license_for_file in E. destruct H1 as [r Er]. rewrite Er in E. cbn [bind] in E.
+    destruct r as [[j p]|]; [|discriminate]. destruct (ll_fp_license p) as [l|]; [|discriminate].
+    destruct (lic_text l); [discriminate|]. destruct (lic_name l) as [n|]; [|discriminate].
+    destruct (ll_find_license_by_name_ok v d n) as [a Ea]. congruence.
+  - split; [exact H3|].
+    destruct (ly_find_license_for_file_shape v c path) as [[H|[k E]] _]; [exact H|exfalso].
+    unfold ly_find_license_for_file in E. destruct H3 as [r Er]. rewrite Er in E. cbn [bind] in E.
+    destruct r as [[j fp]|]; [|discriminate].
+    destruct (lf_license fp); cbn [lic_text lic_name] in E; discriminate.
 Qed.
 
 (* ---------------------------------------------------------------- the lossy reader against the document *)
-Theorem ly_lookup d c path : ly_of_doc fixed d = Ok c -> doc_valid d ->
+Theorem ly_lookup v d c path : good v -> exact_case d -> v_lenient v = true \/ doc_valid d ->
+  ly_of_doc v d = Ok c ->
   exists r ans,
     is_last_such (fun p => para_matches p path) (files_paragraphs d) r /\
     licence_answer d r ans /\
-    rmap (option_map fst) (ly_find_files fixed c path) = Ok (option_map fst r) /\
-    (forall j fp, ly_find_files fixed c path = Ok (Some (j, fp)) ->
-                  exists p, r = Some (j, p) /\ files_conv fixed p fp) /\
-    ly_find_license_for_file fixed c path = Ok ans.
+    rmap (option_map fst) (ly_find_files v c path) = Ok (option_map fst r) /\
+    (forall j fp, ly_find_files v c path = Ok (Some (j, fp)) ->
+                  exists p, r = Some (j, p) /\ files_conv v p fp) /\
+    ly_find_license_for_file v c path = Ok ans.
 Proof.
-  intros E V. destruct (ll_license_rule d path V) as [r [ans [Er [Hr [Ea Hl]]]]].
-  exists r, ans. split; [exact Hr|]. split; [exact Hl|].
-  pose proof (find_files_agree d c path E) as F. rewrite Er in F.
-  rewrite <- (find_license_for_file_agree d c path E).
-  destruct (ly_find_files fixed c path) as [[[j fp]|]|e|n|]; destruct r as [[i p]|]; cbn [found_rel] in F;
+  intros G H V E.
+  assert (V' : v_lenient v = true \/ xvalid d) by (destruct V as [V|V]; [left; exact V|right; apply (x_valid d H); exact V]).
+  destruct (ll_license_rule v d path G V') as [r [ans [Er [Hr [Ea Hl]]]]].
+  exists r, ans. destruct (x_lookup d path r ans H Hr Hl) as [H1 H2].
+  split; [exact H1|]. split; [exact H2|].
+  pose proof (find_files_agree v d c path G E) as F. rewrite Er in F.
+  rewrite <- (find_license_for_file_agree v d c path G E).
+  destruct (ly_find_files v c path) as [[[j fp]|]|e|n|]; destruct r as [[i p]|]; cbn [found_rel] in F;
     try contradiction.
   - destruct F as [-> R]. split; [reflexivity|]. split; [|exact Ea].
-    intros j' fp' H. injection H as <- <-. exists p. auto.
-  - split; [reflexivity|]. split; [|exact Ea]. intros j fp H. discriminate.
+    intros j' fp' Hj. injection Hj as <- <-. exists p. auto.
+  - split; [reflexivity|]. split; [|exact Ea]. intros j fp Hj. discriminate.
 Qed.
